@@ -168,6 +168,9 @@ StepSky ==
 (* wide dilations: every ngrow up to SkyWideMax on rows long enough to hold the whole window,  *)
 (* with isolated flagged pixels (no second flagged pixel inside the same 2*ngrow+1 window).   *)
 SkyWideMax == IF Q THEN 60 ELSE 130
+(* the values around which 2*ngrow+1 leaves the range of an 8-bit integer (ngrow handed over as numpy.int8 /   *)
+(* numpy.uint8): also in the quick tier                                                                        *)
+SkyWideNgrows == (0..SkyWideMax) \cup {63, 64, 65, 66, 127, 128, 129, 130}
 SkyWidePats == {"mid", "ends", "far", "pair"}
 WideLen(g, pat) == CASE pat = "mid" -> 2 * g + 3 [] pat = "ends" -> 2 * g + 3 [] pat = "far" -> 4 * g + 5 [] pat = "pair" -> 2 * g + 4
 WideFlags(t, g, pat) ==
@@ -176,11 +179,12 @@ WideFlags(t, g, pat) ==
        [] pat = "ends" -> (IF p = 1 THEN {t.BADSKYCHI} ELSE IF p = 2 * g + 3 THEN {t.REDMONSTER, t.O2} ELSE {})
        [] pat = "far" -> (IF p = g + 2 THEN {t.BADSKYCHI, t.O1} ELSE IF p = 3 * g + 4 THEN {t.REDMONSTER} ELSE {})
        [] pat = "pair" -> (IF p = g + 2 THEN {t.BADSKYCHI} ELSE IF p = g + 3 THEN {t.REDMONSTER} ELSE {})]
-RootSkyWide == \E t \in SkyTables : \E g \in 0..SkyWideMax : c' = [kind |-> "seedwide", tbl |-> t, ngrow |-> g]
+RootSkyWide == \E t \in SkyTables : \E g \in SkyWideNgrows : c' = [kind |-> "seedwide", tbl |-> t, ngrow |-> g]
 StepSkyWide ==
   /\ c.kind = "seedwide"
   /\ \E pat \in SkyWidePats :
-        c' = [kind |-> "sky", pat |-> pat, tbl |-> c.tbl, ngrow |-> c.ngrow, ivar |-> <<[p \in 1..WideLen(c.ngrow, pat) |-> 1 + (p % 7)]>>,
+        /\ c.ngrow > SkyWideMax => pat \in {"mid", "ends"}
+        /\ c' = [kind |-> "sky", pat |-> pat, tbl |-> c.tbl, ngrow |-> c.ngrow, ivar |-> <<[p \in 1..WideLen(c.ngrow, pat) |-> 1 + (p % 7)]>>,
               flags |-> <<WideFlags(c.tbl, c.ngrow, pat)>>]
   /\ exp' = [val |-> SkyMask(c'.ivar, c'.flags, c'.ngrow, c'.tbl)]
 (* what the patterns are for: every flagged pixel is alone in its window, the dilations leave  *)
